@@ -15,14 +15,18 @@ A property module provides:
   optional: regression_cases() -> list of case dicts always replayed first
   optional: finalize(agg, tier) -> extra coverage dict
 """
-import hashlib, json, multiprocessing, os, sys, time, traceback
+import fnmatch, hashlib, json, multiprocessing, os, sys, time, traceback
 
 sys.path.insert(0, os.path.dirname(os.path.abspath(__file__)))
 import build
 
 VERIF = build.VERIF
-EVID = os.path.join(VERIF, "evidence")
+# VERIF_OUT redirects evidence and NEW replay files (used when the checks are pointed at a seeded scratch tree, so that
+# such runs never overwrite the evidence of /repo itself); committed regression replays are always read from /verif/replays.
+_OUT = os.environ.get("VERIF_OUT") or VERIF
+EVID = os.path.join(_OUT, "evidence")
 REPLAYS = os.path.join(VERIF, "replays")
+NEW_REPLAYS = os.path.join(_OUT, "replays")
 KNOWN_FILE = os.path.join(VERIF, "known_findings.json")
 
 
@@ -37,9 +41,46 @@ def load_known(pid):
 def key_matches(known, key):
     for e in known:
         k = e["key"]
-        if key == k or (k.endswith("*") and key.startswith(k[:-1])):
+        if key == k or ("*" in k and fnmatch.fnmatchcase(key, k)):
             return e
     return None
+
+
+def feature_tag(case):
+    """Names the non-default, defect-prone features a case's encoder configuration uses.  Appended to violation keys (modules with TAG_KEYS)
+    so that a known finding is identified by the region of the configuration space in which it fails and a violation elsewhere keeps a different key."""
+    c = (case.get("cfg") or (case.get("enc") or {}).get("cfg") or {}) if isinstance(case, dict) else {}
+    t = []
+    if c.get("enable_overlays"):
+        t.append("OVL")
+    if c.get("enable_adaptive_quantization", 2) == 1:
+        t.append("AQ1")
+    if c.get("rate_control_mode", 0):
+        t.append("RC%d" % c["rate_control_mode"])
+    if isinstance(case, dict) and case.get("twopass"):
+        t.append("2PASS")
+    if c.get("film_grain_denoise_strength", 0):
+        t.append("GRAIN")
+    if c.get("superres_mode", 0):
+        t.append("SRES")
+    if c.get("screen_content_mode", 2) == 1:
+        t.append("SCM1")
+    if c.get("is_16bit_pipeline") and c.get("encoder_bit_depth", 8) == 8:
+        t.append("16BP")
+    if c.get("tile_rows", 0) or c.get("tile_columns", 0):
+        t.append("TILES")
+    return "+".join(t) or "plain"
+
+
+def run_tagged(mod, case, tier):
+    res = run_tagged(mod, case, tier)
+    if getattr(mod, "TAG_KEYS", False):
+        tag = feature_tag(case)
+        for v in res.get("violations", []):
+            if not v.get("tagged"):
+                v["key"] = v["key"] + "|" + tag
+                v["tagged"] = 1
+    return res
 
 
 def derive_seed(seed, shard):
@@ -69,6 +110,10 @@ def _shard_main(mod, tier, seed, shard, outdir, budget, known):
     def prop(case):
         ck = hashlib.sha256(json.dumps(case, sort_keys=True).encode()).hexdigest()
         now = time.time() - t0
+        if shard > 0 and not state.get("first_seen"):
+            state["first_seen"] = ck      # Hypothesis' first example is the all-minimal one, identical in every shard: only shard 0 runs it
+            return
+        state["first_seen"] = state.get("first_seen") or ck
         if ck in cache:
             res = cache[ck]
         else:
@@ -77,7 +122,7 @@ def _shard_main(mod, tier, seed, shard, outdir, budget, known):
             if over:
                 return  # budget exhausted: explored less, never a failure
             try:
-                res = mod.run_case(case, tier)
+                res = run_tagged(mod, case, tier)
             except build.BuildFailed:
                 raise
             except Exception as e:  # harness error: inconclusive, reported, not a violation
@@ -117,7 +162,7 @@ def confirm(mod, tier, case, known, times=3, need=3):
     counts, what = {}, {}
     for _ in range(times):
         try:
-            res = mod.run_case(case, tier)
+            res = run_tagged(mod, case, tier)
         except Exception as e:
             continue
         for v in res.get("violations", []):
@@ -130,7 +175,7 @@ def confirm(mod, tier, case, known, times=3, need=3):
 
 
 def write_replay(pid, case, viol):
-    d = os.path.join(REPLAYS, pid)
+    d = os.path.join(NEW_REPLAYS, pid)
     os.makedirs(d, exist_ok=True)
     h = hashlib.sha256(json.dumps(case, sort_keys=True).encode()).hexdigest()[:12]
     safe = "".join(c if c.isalnum() else "_" for c in viol[0]["key"])[:60]
@@ -177,7 +222,7 @@ def main(mod, argv=None):
 
     if a.replay:
         rp = json.load(open(a.replay))
-        res = mod.run_case(rp["case"], tier)
+        res = run_tagged(mod, rp["case"], tier)
         viol = [v for v in res.get("violations", []) if not key_matches(known, v["key"])]
         for v in res.get("violations", []):
             if key_matches(known, v["key"]):
@@ -216,7 +261,7 @@ def main(mod, argv=None):
     reg_log = open(os.path.join(outdir, "shard_reg.jsonl"), "w")
     for case in reg_cases:
         try:
-            res = mod.run_case(case, tier)
+            res = run_tagged(mod, case, tier)
         except Exception as e:
             res = dict(violations=[], nontrivial=False, dkey="harness-error", classes=["harness_error"], sample=None,
                        inconclusive="harness exception %r" % (e,))
